@@ -356,6 +356,7 @@ class InputsMachine(Machine):
             'grid_xypos': [(5, 0), (5, 10), (5, 20), (5, 30)],
             'oversampling': 1}))
         P['gmodel_col'] = gcol
+        P['nddata_u'] = NDData(clean.copy(), unit=u.Jy)
         P['nddata'] = NDData(data.copy(), mask=mask.copy(),
                              uncertainty=StdDevUncertainty(
                                  P['error'].copy()))
@@ -582,6 +583,12 @@ class InputsMachine(Machine):
             ms[0].cutout(data)
             ms[0].multiply(data)
             ms[0].get_values(data, mask=mask)
+            # masks whose weights are all 0 or 1
+            mc = aper.to_mask(method='center')
+            for m1 in mc[:2]:
+                m1.multiply(data)
+                m1.multiply(data, fill_value=np.nan)
+                m1.cutout(data, fill_value=-1.0)
             if op.get('opt', 0) % 2:
                 # drawn on a cutout of the image: origin = cutout corner
                 from matplotlib.figure import Figure
@@ -644,6 +651,17 @@ class InputsMachine(Machine):
     def _s_local_background(self, st, op, data, mask, error):
         from photutils.background import LocalBackground
         P = st.P
+        if 'xpos_ma' not in P:
+            # positions from a table column with a masked entry
+            xm = np.ma.MaskedArray(P['xpos'].copy(), mask=np.zeros(
+                len(P['xpos']), bool))
+            xm.mask[-1] = True
+            P['xpos_ma'], P['ypos_c'] = xm, P['ypos'].copy()
+            st.d0['xpos_ma'] = _digest_any(xm)
+            st.d0['ypos_c'] = _digest_any(P['ypos_c'])
+        if op.get('opt', 0) == 7:
+            return self._run(st, op, lambda: LocalBackground(4, 8)(
+                data, P['xpos_ma'], P['ypos_c'], mask=mask))
         return self._run(st, op, lambda: LocalBackground(4, 8)(
             data, P['xpos'], P['ypos'], mask=mask))
 
@@ -712,12 +730,17 @@ class InputsMachine(Machine):
             import astropy.units as u
             thr = thr * u.Jy
         eb = bool(op.get('use_error'))     # independent coin: border option
+        if 'xycoords' not in P:
+            # the caller's own float array of (non-integer) positions
+            P['xycoords'] = np.column_stack([P['xpos'], P['ypos']]) + 0.3
+            st.d0['xycoords'] = _digest_any(P['xycoords'])
         if v % 3 == 0:
             f = DAOStarFinder(thr, 3.0, exclude_border=eb,
-                              xycoords=np.column_stack(
-                                  [P['xpos'], P['ypos']]) if v == 3 else None)
+                              xycoords=P['xycoords'] if v == 3 else None)
         elif v % 3 == 1:
-            f = IRAFStarFinder(thr, 3.0, exclude_border=eb)
+            f = IRAFStarFinder(thr, 3.0, exclude_border=eb,
+                               xycoords=P['xycoords'] if v == 4 and op.get(
+                                   'opt', 0) % 2 else None)
         else:
             f = StarFinder(thr, P['kernel'], exclude_border=eb)
         return self._run(st, op, lambda: f(data, mask=mask))
@@ -1406,7 +1429,11 @@ class InputsMachine(Machine):
                       'init_peak', 'init', 'init_canon', 'init_canon_xy'][
                           op.get('opt', 0)]]
             t = ph(data, mask=mask, error=error, init_params=init)
-            return t, ph.make_model_image((30, 32))
+            # residuals of the caller's images, handed over as NDData with
+            # and without a unit
+            r1 = ph.make_residual_image(P['nddata_u'])
+            r2 = ph.make_residual_image(P['nddata'])
+            return t, ph.make_model_image((30, 32)), r1, r2
         return self._run(st, op, fn)
 
     def _s_psf_fixed_models(self, st, op, data, mask, error):
